@@ -3,7 +3,7 @@
    operator= and update() its own step, the mutex explicit, ANY schedule.  Values carry
    their position in the assignment sequence as a ghost tag (0 = the initial value). *)
 From Common Require Import Prelude.
-From C12 Require Import Model Proofs ProofsTVal.
+From C12 Require Import Model Proofs ProofsTVal ProofsTValAcc.
 Local Open Scope N_scope.
 
 (* every value the consumer sees was assigned (or is the initial one), values are seen in
@@ -55,14 +55,73 @@ Theorem tval_tags_are_ghost : forall (A : Type) (v0 : A) vs sched,
 Proof. exact @ProofsTVal.tv_erase_proof. Qed.
 Print Assumptions tval_tags_are_ghost.
 
-(* the acceptance function run (extracted) on the histories recorded by the stress harness
-   accepts only coherent histories whose quiescent points show the value just assigned.
-   (partial: the converse - every history of the model is accepted - is not proved; it is
-   exercised by the harness runs, which must all be accepted) *)
-Theorem tval_accept_sound_partial : forall v0 vs l,
+(* ---- the acceptance function tv_accept run (extracted) on the recorded histories ----
+   The recording model tvh_step is the micro-step system plus ghost recording of the
+   consumer's events and of quiescent markers (Model.v).  It is faithful: *)
+Theorem tval_recording_faithful : forall v0 vs sched,
+  let h := tvh_run (length vs) (tvh_init v0 vs) sched in
+  h_sys h = tv_run (tv_init_tagged v0 vs) (tvh_proj sched) /\ evs_of (h_hist h) = log (h_sys h).
+Proof. exact ProofsTValAcc.tvh_faithful_proof. Qed.
+Print Assumptions tval_recording_faithful.
+
+(* completeness: EVERY history the model can produce, under any schedule, is accepted as a
+   history so far ... *)
+Theorem tval_accept_complete_prefix : forall v0 vs sched,
+  tv_accept_prefix v0 vs (h_hist (tvh_run (length vs) (tvh_init v0 vs) sched)) = true.
+Proof. exact ProofsTValAcc.tvh_complete_prefix_proof. Qed.
+Print Assumptions tval_accept_complete_prefix.
+
+(* ... and as a complete history once the consumer has obtained the last assigned value *)
+Theorem tval_accept_complete : forall v0 vs sched,
+  let h := tvh_run (length vs) (tvh_init v0 vs) sched in
+  fst (log_cur (0, v0) (log (h_sys h))) = N.of_nat (length vs) ->
+  tv_accept v0 vs (h_hist h) = true.
+Proof. exact ProofsTValAcc.tvh_complete_proof. Qed.
+Print Assumptions tval_accept_complete.
+
+(* soundness: acceptance is exactly the specification hist_ok of a coherent history (get()
+   and a false update() repeat the previous value, a true update() moves to a strictly
+   later assigned value, a quiescent marker carries the tag of the value held) *)
+Theorem tval_accept_prefix_iff_spec : forall v0 vs l,
+  tv_accept_prefix v0 vs l = true <-> hist_ok v0 vs (0, v0) l.
+Proof. exact ProofsTValAcc.tv_accept_prefix_iff_proof. Qed.
+Print Assumptions tval_accept_prefix_iff_spec.
+
+Theorem tval_accept_iff_spec : forall v0 vs l,
+  tv_accept v0 vs l = true <->
+  hist_ok v0 vs (0, v0) l /\ (length vs <= N.to_nat (fst (log_cur (0%N, v0) (evs_of l))))%nat.
+Proof. exact ProofsTValAcc.tv_accept_iff_proof. Qed.
+Print Assumptions tval_accept_iff_spec.
+
+Theorem tval_accept_sound : forall v0 vs l,
   tv_accept v0 vs l = true -> log_ok (0, v0) (evs_of l) /\ quiet_ok (0, v0) l.
 Proof. exact ProofsTVal.tv_accept_sound_proof. Qed.
-Print Assumptions tval_accept_sound_partial.
+Print Assumptions tval_accept_sound.
+
+(* combined: model histories  =>  accepted  <=>  specification.
+   (partial in one respect, hence the name: that every history satisfying the specification
+   is produced by some schedule of the model - which would make acceptance literally
+   membership - is not proved; the specification is what the property text demands.) *)
+Theorem tval_acceptance_characterised_partial : forall v0 vs,
+  (forall sched, tv_accept_prefix v0 vs (h_hist (tvh_run (length vs) (tvh_init v0 vs) sched)) = true)
+  /\ (forall l, tv_accept_prefix v0 vs l = true <-> hist_ok v0 vs (0, v0) l)
+  /\ (forall sched, hist_ok v0 vs (0, v0) (h_hist (tvh_run (length vs) (tvh_init v0 vs) sched))).
+Proof.
+  exact (fun v0 vs => conj (ProofsTValAcc.tvh_complete_prefix_proof v0 vs)
+         (conj (ProofsTValAcc.tv_accept_prefix_iff_proof v0 vs)
+               (fun sched => proj1 (ProofsTValAcc.tv_accept_prefix_iff_proof v0 vs _)
+                                   (ProofsTValAcc.tvh_complete_prefix_proof v0 vs sched)))).
+Qed.
+Print Assumptions tval_acceptance_characterised_partial.
+
+(* non-vacuity of the recording model: arm, update (installs 7), marker *)
+Example tval_recording_example :
+  h_hist (tvh_run 2 (tvh_init 5 [7; 9])
+           [HRun AProd; HRun AProd; HRun AProd; HRun AProd; HArm; HRun (ACons DoUpdate); HRun (ACons DoUpdate);
+            HRun (ACons DoUpdate); HRun (ACons DoUpdate); HRun (ACons DoUpdate); HRun (ACons DoGet); HMark;
+            HRun AProd; HMark])
+  = [HEv (EvUpdate true (1, 7)); HEv (EvGet (1, 7)); HQuiet 1].
+Proof. vm_compute. reflexivity. Qed.
 
 (* non-vacuity: the producer assigns 7 then 9; the consumer's first update() sees the flag
    after the first assignment, is overtaken by the second assignment while waiting for the
